@@ -4,7 +4,7 @@
 import glob, os, subprocess, sys, tempfile
 from concurrent.futures import ThreadPoolExecutor
 HERE = os.path.dirname(os.path.dirname(os.path.abspath(__file__)))
-PROPS = [f"C{i:02d}" for i in range(1, 20)]
+PROPS = os.environ.get("PROPS", "").split() or [f"C{i:02d}" for i in range(1, 20)]   # PROPS="C06 C08" restricts the replay
 
 
 def one(d):
